@@ -462,5 +462,25 @@ C08_DescriptionResolves == (Done /\ style = "full") =>
 C08_SeekersPositive ==
   \A o \in DOMAIN pr.sought : pr.paths[pr.sought[o]].seekers > 0
 
+(***************************************************************************)
+(* C18 at the level of the scan: every phase calls progressMeter.Inc()     *)
+(* once per action of that phase, so the final progress count of a phase   *)
+(* is the number of actions taken, which must be the census count of that  *)
+(* kind (roots for the reference phase; the matching phase is skipped      *)
+(* with --names=none).                                                     *)
+(***************************************************************************)
+IncBlobs == Len(trail.b)
+IncTrees == Len(trail.t)
+IncCommits == Len(corder)
+IncMatch == IF style = "none" THEN 0 ELSE mpos
+IncTags == Len(trail.g)
+IncRefs == rpos
+C18_IncsEqualCensus == Done =>
+  LET RS == Reach(G, WalkedOids) IN
+  /\ IncBlobs = Cardinality(OfKind(RS, "b")) /\ IncTrees = Cardinality(OfKind(RS, "t"))
+  /\ IncCommits = Cardinality(OfKind(RS, "c")) /\ IncTags = Cardinality(OfKind(RS, "g"))
+  /\ IncRefs = Len(R)
+  /\ (style # "none" => IncMatch = Cardinality(OfKind(RS, "c")))
+
 Spec == [][Next]_vars
 =============================================================================
